@@ -2156,6 +2156,18 @@ def run(cx):
 
 
 SELFTEST = [
+    {"name": "F15 re-introduced: checked addition of a saturated RTO to the clock",
+     "edits": [{"file": "src/half_connection/send_rate.rs", "old": "self.nofeedback_exp_ms = Some(now_ms.saturating_add(s_to_ms(rto_s)));\n        self.nofeedback_idle = true;\n    }\n\n    fn nofeedback_expired", "new": "self.nofeedback_exp_ms = Some(now_ms + s_to_ms(rto_s));\n        self.nofeedback_idle = true;\n    }\n\n    fn nofeedback_expired"}],
+     "expect": ["C03.Q"]},
+    {"name": "F16 re-introduced: 2*recover_rate in u32",
+     "edits": [{"file": "src/half_connection/send_rate.rs", "old": "self.send_rate < recover_rate.saturating_mul(2)", "new": "self.send_rate < 2*recover_rate"}],
+     "expect": ["C03.Q"]},
+    {"name": "sync timer measured as base - now",
+     "edits": [{"file": "src/half_connection/mod.rs", "old": "now_ms - self.sync_timeout_base_ms", "new": "self.sync_timeout_base_ms - now_ms"}],
+     "expect": ["C03.U"]},
+    {"name": "an unreadable datagram ends the socket drain",
+     "edits": [{"file": "src/server/mod.rs", "old": "                self.handle_frame(address, frame, now_ms);\n            }", "new": "                self.handle_frame(address, frame, now_ms);\n            } else {\n                break;\n            }"}],
+     "expect": ["C03.K"]},
     {"name": "resend back-off exponent no longer capped: the shift amount is unbounded",
      "edits": [{"file": "src/half_connection/mod.rs", "old": "let new_send_count = (entry.send_count + 1).min(MAX_SEND_COUNT);", "new": "let new_send_count = entry.send_count + 1;"}],
      "expect": ["C03.O"]},
